@@ -301,7 +301,7 @@ Proof.
     destruct (l_disc stL1).
     + injection H as <- <-. destruct (l_task stL1); sw; exact Xw.
     + destruct ce.
-      1-3: apply wp_tail in H as (tail & -> & Tq & T); cbn [is_success];
+      1-4: apply wp_tail in H as (tail & -> & Tq & T); cbn [is_success];
         (destruct r; sw; [destruct T as (-> & -> & _); rewrite Cw1; cbn [set_first set_wait l_wait]; auto | exact T | exact T | exact T]).
       injection H as <- <-. sw. exact Xw.
 Qed.
@@ -389,7 +389,7 @@ Proof.
     destruct (l_disc stL1).
     + injection H as <- <-. destruct (l_task stL1); norm_apps; (repeat split; [sd | so | sc]; reflexivity).
     + destruct ce.
-      1-3: apply wp_tail in H as (tail & -> & Tq & T); norm_apps;
+      1-4: apply wp_tail in H as (tail & -> & Tq & T); norm_apps;
         (repeat split; [sd; reflexivity | so; reflexivity | sc; reflexivity |]);
         (destruct r; [|exact I|exact I|exact I]); destruct T as (_ & _ & Ti & _ & _ & _ & Tx);
         (repeat split; [so; reflexivity | rewrite Ti, Ci1; cbn [set_first set_wait l_iter]; rewrite Ci0; cbn [set_client l_iter]; exact (f_equal S Ci) | sx; exact Tx]).
@@ -571,7 +571,7 @@ Proof.
     + injection H as <- <-. eexists. split; [cbn [app]; reflexivity|].
       destruct (l_task stL1); (split; [safe_goal|]); (split; [eq_goal|]); (split; [eq_goal|]); ends.
     + destruct ce.
-      1-3: apply (wp_stop_facts _ _ _ _ _ _ G) in H as (tail & -> & Ts & T);
+      1-4: apply (wp_stop_facts _ _ _ _ _ _ G) in H as (tail & -> & Ts & T);
         (eexists; split; [cbn [app]; reflexivity|]); (split; [safe_goal|]);
         (destruct r; [| |destruct T|destruct T]);
         [ destruct T as (Td & Tc & T'); (split; [rewrite Td; eq_goal|]); (split; [rewrite Tc; eq_goal|]);
@@ -759,7 +759,7 @@ Proof.
     cbn [set_first set_wait set_client l_iter]. rewrite land_none by reflexivity.
     cbn [set_first set_wait set_client l_disc]. rewrite D1, I1. cbn [init_state l_iter Nat.add].
     destruct ce.
-    1-3: match goal with |- context [wait_phase ?c ?s ?evs ?st] =>
+    1-4: match goal with |- context [wait_phase ?c ?s ?evs ?st] =>
            destruct (wait_phase c s evs st) as [e r] eqn:W; apply wp_tail in W as (tail & -> & _) end;
          (destruct r; eexists; eexists; cbn [app]; rewrite <- ?app_assoc; cbn [app]; reflexivity).
     eexists; eexists; cbn [app]; reflexivity. }
@@ -964,7 +964,7 @@ Proof.
   - destruct (l_disc stL1).
     + injection H as <- <-. destruct (l_task stL1); nocancel_goal.
     + destruct ce.
-      1-3: apply wp_nocancel in H as (tail & -> & Nt); [nocancel_goal | congruence].
+      1-4: apply wp_nocancel in H as (tail & -> & Nt); [nocancel_goal | congruence].
       injection H as <- <-. nocancel_goal.
 Qed.
 
